@@ -2853,6 +2853,8 @@ func (r *Stack) Marshal(in ...any) (err error) {
 				r.stack = xs.stack
 			} else if xc.IsInit() {
 				err = errorf("Cannot Unmarshal Condition only; must envelope in Stack")
+			} else if err == nil {
+				err = errorf("Marshaler input yielded no Stack")
 			}
 		} else if sc, _ := r.config(); sc.maf != nil {
 			// use the user-authored closure marshaler
